@@ -396,6 +396,7 @@ Definition old_rectype_class (c : cfg) : bool :=       (* swh identify -r -t dir
 Definition old_autolink_class (c : cfg) : bool :=      (* swh identify --no-dereference <link->dir> *)
   match arg c with
   | ALinkDir => negb (deref c) && negb (recur c) && otype_eqb (ty c) TAuto
+                && match ver c with VNonMatch => false | _ => true end   (* a wrong id is refused either way *)
   | _ => false
   end.
 
